@@ -66,6 +66,10 @@ func ParseOne(reader *bufio.Reader) (*ChangelogEntry, error) {
 	var header string
 	for {
 		line, err := reader.ReadString('\n')
+		if err == io.EOF && trim(line) != "" {
+			/* the file ends inside an entry */
+			return nil, io.ErrUnexpectedEOF
+		}
 		if err != nil {
 			return nil, err
 		}
@@ -111,6 +115,12 @@ func ParseOne(reader *bufio.Reader) (*ChangelogEntry, error) {
 	/* OK, we've got the header. Let's zip down. */
 	for {
 		line, err := reader.ReadString('\n')
+		if err == io.EOF && strings.HasPrefix(line, " -- ") {
+			err = nil /* the last line is allowed to lack its newline */
+		}
+		if err == io.EOF {
+			return nil, io.ErrUnexpectedEOF
+		}
 		if err != nil {
 			return nil, err
 		}
